@@ -642,9 +642,11 @@ class Interp:
                                     out.add("raise", c3.set("$exc", ExcV("KeyError", f"del L{stmt.lineno}")))
                                     continue
                                 c3 = self.store_back(tgt.value, DictV([(k, v) for k, v in base.items if k != idx]), c3)
-                            if isinstance(tgt.value, ast.Name) and isinstance(base, ListV) and isinstance(idx, App) and idx.op == "slice" \
-                                    and all(a == NONE for a in idx.args):
-                                c3 = c3.set(tgt.value.id, ListV((), base.kind))
+                            if isinstance(base, ListV) and isinstance(idx, App) and idx.op == "slice" and all(a == NONE for a in idx.args):
+                                if isinstance(tgt.value, ast.Name):
+                                    c3 = c3.set(tgt.value.id, ListV((), base.kind))
+                                else:
+                                    c3 = self.store_back(tgt.value, ListV((), base.kind), c3)
                             ncs.append(c3)
                 elif isinstance(tgt, ast.Attribute):
                     for c1, base in self.ev(tgt.value, c, out):
@@ -743,7 +745,10 @@ class Interp:
         out = Out()
         for c, it in self.ev(stmt.iter, cfg, out):
             items = self.concrete_iter(it)
-            if items is not None:
+            slot = self._live_slot(stmt.iter, c, it) if getattr(self.policy, "live_lists", False) else None
+            if slot is not None:
+                self._loop_live(stmt, c, slot, out)
+            elif items is not None:
                 self._loop_concrete(stmt, c, items, out)
             else:
                 self._loop_symbolic(stmt, c, it, out)
@@ -759,6 +764,42 @@ class Interp:
         if isinstance(it, Const) and isinstance(it.v, (tuple, list, frozenset)):
             return [Const(x) for x in it.v]
         return None
+
+    def _live_slot(self, iter_node, cfg, it):
+        """Heap slot of a list object iterated in place (``for x in self.items``): Python's list iterator reads the live list by index."""
+        if not (isinstance(iter_node, ast.Attribute) and isinstance(it, ListV) and it.kind == "list"):
+            return None
+        sub = Out()
+        bases = self.ev(iter_node.value, cfg, sub)
+        if len(bases) == 1 and isinstance(bases[0][1], ObjV) and f"{bases[0][1].oid}.{iter_node.attr}" in cfg.heap:
+            return f"{bases[0][1].oid}.{iter_node.attr}"
+        return None
+
+    def _loop_live(self, stmt, cfg, slot, out):
+        cur = [cfg]
+        i = 0
+        done = []
+        while cur and i < 64:
+            nxt = {}
+            for c in cur:
+                lst = c.heap.get(slot)
+                if not isinstance(lst, ListV) or i >= len(lst.items):
+                    done.append(c)
+                    continue
+                for c1 in self.assign(stmt.target, lst.items[i], c, out):
+                    o = self.exec_block(stmt.body, [c1])
+                    for c2 in o.get("normal") + o.get("continue"):
+                        nxt.setdefault(c2, None)
+                    out.extend("normal", o.get("break"))
+                    out.extend("return", o.get("return"))
+                    out.extend("raise", o.get("raise"))
+            cur = list(nxt.keys())
+            i += 1
+        if done:
+            if stmt.orelse:
+                out.merge(self.exec_block(stmt.orelse, done))
+            else:
+                out.extend("normal", done)
 
     def _loop_concrete(self, stmt, cfg, items, out):
         cur = [cfg]
@@ -1527,6 +1568,10 @@ class Interp:
                 return None
         if isinstance(r, ListV) and all(isinstance(x, Const) for x in r.items) and isinstance(l, Const):
             return l in r.items
+        if isinstance(r, ListV) and all(isinstance(x, ClassV) for x in r.items) and isinstance(l, ClassV):
+            return l in r.items  # type(x) in [bool, int]
+        if isinstance(r, ListV) and r.items and all(self.identity(l, x) is not None for x in r.items):
+            return any(self.identity(l, x) for x in r.items)  # members of one enumeration
         if isinstance(r, DictV) and isinstance(l, Const) and all(isinstance(k, Const) for k, _ in r.items):
             return any(k == l for k, _ in r.items)
         return None
@@ -1888,6 +1933,8 @@ class Interp:
                 return [(cfg, ClassV(args[0].cls))]
             if isinstance(args[0], ObjV):
                 return [(cfg, ClassV(args[0].cls))]
+            if isinstance(args[0], Const) and type(args[0].v).__name__ in self.BUILTIN_CLASSES | {"NoneType"}:
+                return [(cfg, ClassV(type(args[0].v).__name__))]
             return [(cfg, App("type", (args[0],)))]
         if fname == "getattr" and len(args) >= 2 and isinstance(args[1], Const) and isinstance(args[1].v, str):
             base = args[0]
